@@ -113,3 +113,36 @@ Proof.
   replace (d / R) with (d / (sqrt R * sqrt R)) by (rewrite HsR; reflexivity).
   field. repeat split; assumption.
 Qed.
+
+(* the layered model in contact, with every guarded power resolved (used by the
+   certified pointwise enclosures of the correspondence check) *)
+Lemma clifford_in_contact ES EL R nS nL t cp bl delta :
+  0 < ES -> 0 < EL -> 0 < R -> 0 < t -> 0 < cp - delta ->
+  0 < 1 - 22 / 100 * nS ^ 2 -> 0 < 1 - 192 / 100 * nL ^ 2 ->
+  m_power_layer_clifford_2009 ES EL R nS nL t cp bl delta =
+  let xi := sqrt (R * (cp - delta)) / t * Rpower (EL / ES) (2 / 3)
+            * (1 - 22 / 100 * nS ^ 2) / (1 - 192 / 100 * nL ^ 2) in
+  4 / 3 * (EL + (ES - EL) * (225 / 100 * Rpower xi (3 / 2)) / (1 + 225 / 100 * Rpower xi (3 / 2)))
+  * sqrt R * Rpower (cp - delta) (3 / 2) + bl.
+Proof.
+  intros HES HEL HR Ht Hd HS HL. cbv zeta.
+  assert (Hq : 0 < EL / ES) by (unfold Rdiv; apply Rmult_lt_0_compat; [lra | apply Rinv_0_lt_compat; lra]).
+  assert (Hxi : 0 < sqrt (R * (cp - delta)) / t * Rpower (EL / ES) (2 / 3)
+                    * (1 - 22 / 100 * nS ^ 2) / (1 - 192 / 100 * nL ^ 2)).
+  { unfold Rdiv. repeat apply Rmult_lt_0_compat; try lra.
+    - apply sqrt_lt_R0. apply Rmult_lt_0_compat; lra.
+    - apply Rinv_0_lt_compat; lra.
+    - unfold Rpower. apply exp_pos.
+    - apply Rinv_0_lt_compat; lra. }
+  assert (Exi : clifford_xi ES EL R nS nL t (cp - delta)
+                = sqrt (R * (cp - delta)) / t * Rpower (EL / ES) (2 / 3)
+                  * (1 - 22 / 100 * nS ^ 2) / (1 - 192 / 100 * nL ^ 2)).
+  { unfold clifford_xi. rewrite ppow_pos by exact Hq. reflexivity. }
+  rewrite formula_clifford; try lra.
+  - unfold piecewise. destruct (Rlt_dec delta cp); [|lra].
+    unfold spec_clifford, clifford_E. rewrite Exi. rewrite !ppow_pos by exact Hxi. reflexivity.
+  - rewrite Exi. rewrite ppow_pos by exact Hxi.
+    assert (0 < Rpower (sqrt (R * (cp - delta)) / t * Rpower (EL / ES) (2 / 3)
+                        * (1 - 22 / 100 * nS ^ 2) / (1 - 192 / 100 * nL ^ 2)) (3 / 2))
+      by (unfold Rpower; apply exp_pos). lra.
+Qed.
